@@ -3,6 +3,7 @@ import Bclv.Props.C10
 import Bclv.Props.C15
 import Bclv.Proofs.Scoped
 import Bclv.Proofs.ParserScoped9
+import Bclv.Proofs.ParserFuel5
 /-!
 # C06 — every input ends in a result or an error, never a crash or a hang (partial)
 
@@ -31,9 +32,24 @@ that those outcomes are not reached, and that the machine stops:
   predicate is still evaluated by the driver for every accepted program of the
   correspondence runs (op `SCOPED`), as a cross-check of the model the theorem is about.
 
-Not a theorem: that the parser's own loops make progress, i.e. that the model's `stuck` flag
-(fuel `4·tokens + 16` exhausted) is never raised; and everything about the Go code that is
-not in the model.  Both are checked per input:
+* `front_end_budgets` (`Proofs/LexTerm.lean`, `LexTermWhole.lean`, `ParserFuel1`–`5`): the
+  step budgets of the model's front end are never exhausted, for any input.  The lexer: over
+  any input primitives with a measure that `next` decreases and a `backup` right after a
+  `next` restores (`PrimMeas`, proved for the whole-input cursor with the number of unread
+  bytes), every state function lowers the potential `3·unread + (1|2|3)`, so the run ends
+  within `3·len + 4` state functions with `tEOF` or `tFAIL` as its last token
+  (`lexWhole_lastEnd`).  The parser: on a token list that ends with a finalizer every loop
+  (`advanceLoop`, `syncLoop`, `infixLoop`, `blockLoop`, `topLoop` and the mutual recursion of
+  expressions and statements) consumes a token per iteration or ends, so fuel `4·tokens + 16`
+  suffices and `stuck` stays `false` (`parse_not_stuck`).
+* `accepted_source_runs`: `every_accepted_program_runs` with that hypothesis discharged —
+  **for every source text** the parser model accepts, the VM on the compiled program ends
+  with a result or a runtime error.
+
+Not a theorem: everything about the Go code that is not in the model (the Go lexer and parser
+are loops, not fuelled recursions: that they terminate is what the budgets of the model
+stand for, and agreement of model and code is what the correspondence streams check).  Per
+input:
 the `wf` stream runs the bytecode checker on the compiled form of every generated program
 (including the limit ladders), and the `limits` stream — arbitrary bytes, token soups,
 damaged programs, programs scaled to just below, at and above every implementation limit —
